@@ -13,6 +13,11 @@ R17.4 IMPOSSIBLE-BOUNDS in the overflow-impossible branch the lower bound is add
 R17.5 QUADRANT-LOOPS    each loop over quadrants runs from first_quadrant to last_quadrant
                         inclusive, translates by `x - quadrant * 2^w`, and each translated copy is
                         refined with both range bounds and joined
+R17.6 WHOLE-MODULUS     Interval::wrap_assign (rational / floating boxes) reduces the two ends
+                        modulo 2^w only when the interval is shorter than 2^w: the shortcut to the
+                        full range is taken when upper - 2^w >= lower (non-strict)
+R17.7 HALF-BOUNDARY     the comparison-based smod_2exp_* reductions send the value 2^(w-1) itself
+                        to the negative side (non-strict on the upper half, strict on the lower)
 Soundness over the integer points is numeric: not decided.
 """
 from pplv import facts as F
@@ -250,11 +255,150 @@ def r17_5(ctx, fs):
     ctx.floor(rid, n, 3, "quadrant loops")
 
 
+CMP = ("<", ">", "<=", ">=")
+MIRROR = {"<": ">", ">": "<", "<=": ">=", ">=": "<="}
+
+
+def comparison(f, cond):
+    """(op, lhs, rhs, negated) of a condition that is a single ordering comparison, else None."""
+    n = f.deref(cond)
+    neg = False
+    while n is not None and (n["k"] in ("cast", "paren") or (n["k"] == "unop" and n.get("op") == "!")):
+        if n["k"] == "unop":
+            neg = not neg
+        n = f.deref(n["c"][0])
+    if n is None or n["k"] not in ("binop", "ocall") or n.get("op") not in CMP:
+        return None
+    cs = [f.deref(c) for c in n.get("c", ())]
+    if n["k"] == "ocall" and len(cs) == 3:
+        cs = cs[1:]
+    if len(cs) != 2:
+        return None
+    op = n["op"]
+    if neg:
+        op = {"<": ">=", ">": "<=", "<=": ">", ">=": "<"}[op]
+    return op, cs[0], cs[1], n
+
+
+def r17_6(ctx, f):
+    rid = "R17.6"
+    ctx.rule(rid, "whole modulus: Interval::wrap_assign reduces both ends modulo 2^w and then distinguishes lower <= upper from wrap-around, which is exhaustive only for an interval shorter than 2^w; the shortcut `return assign(refinement)` must therefore be taken whenever upper - 2^w >= lower (u computed by sub_2exp_assign_r(u, upper(), w, .)), equality included: a closed interval of length exactly 2^w reduces to a single point and loses every other value")
+    subs = [c for c in f.calls() if f.call_name(c) == "sub_2exp_assign_r" and len(f.call_args(c)) >= 3]
+    ctx.require(rid, len(subs) == 1, "Interval::wrap_assign: the computation upper - 2^w (sub_2exp_assign_r) was not found")
+    a = f.call_args(subs[0])
+    u = f.deref(a[0])
+    ctx.require(rid, u is not None and u["k"] == "ref" and "upper" in f.text(f.deref(a[1])), "Interval::wrap_assign: unknown form of the span computation `%s`" % f.text(subs[0]))
+    un = u["n"]
+    n = 0
+    for i in f.walk():
+        if i["k"] != "if":
+            continue
+        cond = f.deref(i["c"][2])
+        cmps = []
+        for x in f.walk(cond):
+            if x["k"] in ("binop", "ocall") and x.get("op") in CMP and un in refs(f, x):
+                cmps.append(x)
+        if not cmps:
+            continue
+        then = f.deref(i["c"][3])
+        ctx.require(rid, any(f.call_name(c) == "assign" for c in f.calls(then)), "Interval::wrap_assign: the test on `%s` does not guard `return assign(refinement)`" % un)
+        for x in cmps:
+            c = comparison(f, x)
+            ctx.require(rid, c is not None, "Interval::wrap_assign: unknown comparison form `%s`" % f.text(x))
+            op, l, r, _ = c
+            # a negation directly above the comparison
+            par = f.parent.get(x["i"])
+            while par is not None and par["k"] in ("cast", "paren"):
+                par = f.parent.get(par["i"])
+            if par is not None and par["k"] == "unop" and par.get("op") == "!":
+                op = {"<": ">=", ">": "<=", "<=": ">", ">=": "<"}[op]
+            lu, ru = un in refs(f, l), un in refs(f, r)
+            other = r if lu else l
+            ctx.require(rid, lu != ru and "lower" in f.text(other) and f.text(l if lu else r).strip() == un,
+                        "Interval::wrap_assign: unknown form of the span test `%s`" % f.text(x))
+            if ru:
+                op = MIRROR[op]
+            n += 1
+            inst = "Interval::wrap_assign span test `%s`" % f.text(x)
+            if op == ">=":
+                ctx.ok(rid, inst, f.where(x))
+            elif op == ">":
+                ctx.violation(rid, inst, f.where(x), "the full-range shortcut is skipped when %s == lower(), i.e. for an interval of length exactly 2^w: both ends then reduce to the same residue, the `lower <= upper` case keeps that single point and every other value of the interval, which wraps to a different one, is lost" % un)
+            else:
+                ctx.violation(rid, inst, f.where(x), "the shortcut to the full range is taken when %s %s lower(), which is not the test `upper - 2^w >= lower`" % (un, op))
+    ctx.floor(rid, n, 1, "span tests in Interval::wrap_assign")
+
+
+REDUCE_DOWN = ("sub_float", "set_neg_overflow_int")
+REDUCE_UP = ("add_float", "set_pos_overflow_int")
+
+
+def r17_7(ctx, fs):
+    rid = "R17.7"
+    ctx.rule(rid, "half boundary: a two's complement type of width w ranges over [-2^(w-1), 2^(w-1) - 1], so the comparison-based smod_2exp_* reductions (mpq, float, unsigned int) must send the value 2^(w-1) itself down by the modulus — the comparison guarding the downward step is non-strict (value >= half) — and must leave -2^(w-1) alone — the comparison guarding the upward step is strict (value < -half); the bit-test / mask forms (mpz, signed int) have no comparison and are not judged")
+    n = 0
+    unjudged = []
+    for f in fs:
+        found = 0
+        for i in f.walk():
+            if i["k"] != "if":
+                continue
+            c = comparison(f, i["c"][2])
+            if c is None:
+                # `bool neg = <comparison>; ... if (neg)`: the flag stands for its only definition
+                cn = f.deref(i["c"][2])
+                while cn is not None and cn["k"] in ("cast", "paren"):
+                    cn = f.deref(cn["c"][0])
+                if cn is not None and cn["k"] == "ref" and cn.get("dk") == "local":
+                    defs = [v for v in f.walk() if v["k"] == "var" and v.get("n") == cn["n"] and v.get("c")]
+                    writes = [a for a in f.walk() if a["k"] == "assign" and f.deref(a["c"][0]) is not None and f.deref(a["c"][0]).get("n") == cn["n"]]
+                    if len(defs) == 1 and not writes:
+                        c = comparison(f, defs[0]["c"][0])
+            if c is None:
+                continue
+            op, l, r, node = c
+            then = f.deref(i["c"][3])
+            down = any((x["k"] == "ocall" and x.get("op") == "-=") or (x["k"] in ("call", "mcall") and f.call_name(x) in REDUCE_DOWN) for x in f.walk(then))
+            up = any((x["k"] == "ocall" and x.get("op") == "+=") or (x["k"] in ("call", "mcall") and f.call_name(x) in REDUCE_UP) for x in f.walk(then))
+            if down == up:
+                continue
+            # orientation: which side is the reduced value (mentions the destination / the working copy)
+            vals = ("to", "v")
+            lv = bool(refs(f, l) & set(vals)) and not (refs(f, l) & {"exp"})
+            rv = bool(refs(f, r) & set(vals)) and not (refs(f, r) & {"exp"})
+            both_dest = lv and rv           # mpq: numerator against the (halved) denominator of the same destination
+            if both_dest:
+                lv, rv = "get_num" in f.text(l), "get_num" in f.text(r)
+            ctx.require(rid, lv != rv, "%s: unknown form of the half-modulus comparison `%s`" % (f.name, f.text(node)))
+            other = r if lv else l
+            ctx.require(rid, not any(x["k"] == "binop" and x.get("op") in ("+", "-") and any(y["k"] == "lit" and str(y.get("v")) == "1" for y in f.walk(x)) and "exp" not in refs(f, x) for x in f.walk(other)),
+                        "%s: the half-modulus bound `%s` is adjusted by one: unknown form" % (f.name, f.text(other)))
+            if rv:
+                op = MIRROR[op]
+            n += 1
+            found += 1
+            inst = "%s %s step under `%s`" % (f.name, "downward" if down else "upward", f.text(node))
+            if down and op == ">=":
+                ctx.ok(rid, inst, f.where(node))
+            elif up and op == "<":
+                ctx.ok(rid, inst, f.where(node))
+            elif down and op == ">":
+                ctx.violation(rid, inst, f.where(node), "a value congruent to exactly 2^(w-1) is left at +2^(w-1), outside the signed range: Interval::wrap_assign then takes the wrong case and drops the point that wraps to the minimum value")
+            elif up and op == "<=":
+                ctx.violation(rid, inst, f.where(node), "the in-range value -2^(w-1) is moved up to +2^(w-1), outside the signed range")
+            else:
+                ctx.violation(rid, inst, f.where(node), "the %s step of the signed reduction is guarded by `value %s half`" % ("downward" if down else "upward", op))
+        if not found:
+            unjudged.append(f.name)
+    ctx.note(rid, "siblings without a comparison (bit test / mask forms), not judged: " + ", ".join(sorted(set(unjudged))))
+    ctx.floor(rid, n, 4, "half-modulus comparisons in smod_2exp_*")
+
+
 def run(ctx):
-    ctx.explanation = ("C17 structural clauses of the generic wrap_assign: quadrant indices are floors, every wrapped dimension is handled on every path, "
+    ctx.explanation = ("C17 structural clauses of the generic wrap_assign and two comparison-strictness clauses of the interval version: quadrant indices are floors, every wrapped dimension is handled on every path, "
                        "full-range and overflow-impossible bounds are complete, quadrant loops cover first..last inclusive with the right translation; "
                        "decides these clauses, not the soundness over integer points")
-    ctx.assumptions = ["Box::wrap_assign, Interval::wrap_assign, Grid::wrap_assign, drop_some_non_integer_points and contains_integer_point are numeric case analyses: not decided",
+    ctx.assumptions = ["Box::wrap_assign, Grid::wrap_assign, the rest of Interval::wrap_assign (beyond R17.6/R17.7), drop_some_non_integer_points and contains_integer_point are numeric case analyses: not decided",
                        "the rules work on the template pattern of wrap_assign.hh (shared by Polyhedron, BD_Shape, Octagonal_Shape)"]
     fx = ctx.extract(units())
     fs = {}
@@ -270,3 +414,15 @@ def run(ctx):
     r17_3(ctx, w)
     r17_4(ctx, w)
     r17_5(ctx, [fs["wrap_assign"], fs["wrap_assign_ind"], fs["wrap_assign_col"]])
+    fx2 = ctx.extract([F.driver_unit("all_headers.cc", file_re=r"(Interval_defs|checked_mpq_inlines|checked_float_inlines|checked_int_inlines|checked_mpz_inlines)\.hh")])
+    iw = [f for f in fx2.functions if f.name == "wrap_assign" and f.flag("pattern") and f.file.endswith("Interval_defs.hh") and f.cfg]
+    if len(iw) != 1:
+        raise F.AnalysisBroken("C17: Interval::wrap_assign not found in Interval_defs.hh")
+    r17_6(ctx, iw[0])
+    sm = {}
+    for f in fx2.functions:
+        if f.name.startswith("smod_2exp_") and f.flag("pattern") and f.cfg:
+            sm.setdefault((f.name, f.relfile), f)
+    if len(sm) < 5:
+        raise F.AnalysisBroken("C17: smod_2exp_* siblings: found %d, expected at least 5" % len(sm))
+    r17_7(ctx, [sm[k] for k in sorted(sm)])
